@@ -1343,7 +1343,7 @@ def run(ctx):
     # runs of adds without a query in between (own generator: the histories above stay what they were)
     sub = random.Random(("add-runs", ctx.seed, ctx.pid).__repr__())
     runs = []
-    for i in range(ctx.budget(40, 800)):
+    for i in range(ctx.budget(30, 800)):
         static = gen_static(sub)
         T = sub.choice([0, 0, 1, 2, 3, 5]) if classes else None
         runs.append(gen_add_runs(sub, static, T, sub.randint(3, 10)))
@@ -1353,7 +1353,7 @@ def run(ctx):
         for i in range(ctx.budget(1, 4)):
             count0 = literal + sub.choice([1, 2])
             static, init = preload_static(sub, count0, 24)
-            real_runs.append(gen_add_runs(sub, static, None, sub.randint(3, 6), init=init))
+            real_runs.append(gen_add_runs(sub, static, None, sub.randint(2, ctx.budget(3, 6)), init=init))
         run_batch(ctx, real_runs, classes, "engine-real-T-add-runs")
 
     # outside the protocol: correspondence only
